@@ -177,7 +177,7 @@ def simple_qualifiers(draw, max_keys=3):
 
 @st.composite
 def transcript_spec(draw, max_exons=5, coding=None, max_len=10, zero_gap_cds=True, strand=None, start_min=0, start_max=8,
-                    frameshift_prob=8, with_ids=True, qualifiers=True, cds_gap_prob=0, adjacent_exons=False, cds_overlap_prob=0):
+                    frameshift_prob=8, with_ids=True, qualifiers=True, cds_gap_prob=0, adjacent_exons=False, cds_overlap_prob=0, unstranded_prob=0):
     """exon layout + optional CDS chosen as a contiguous run [i,j) in transcript coordinates (boundary-biased)"""
     from harness import refmodel as rm
 
@@ -185,10 +185,13 @@ def transcript_spec(draw, max_exons=5, coding=None, max_len=10, zero_gap_cds=Tru
                         max_gap=6, max_start=start_max))
     if start_min:
         exons = [[s + start_min, e + start_min] for s, e in exons]
+    explicit_strand = strand is not None
     strand = strand or draw(st.sampled_from(["+", "-"]))
     T = rm.positions(exons, strand)
     n = len(T)
     is_coding = draw(st.booleans()) if coding is None else coding
+    if unstranded_prob and not is_coding and not explicit_strand and draw(st.integers(0, unstranded_prob - 1)) == 0:
+        strand = "."   # a non-coding transcript model without direction
     sp = {"exons": exons, "strand": strand}
     if is_coding:
         bounds = [0, n]
@@ -292,11 +295,13 @@ def transcript_spec(draw, max_exons=5, coding=None, max_len=10, zero_gap_cds=Tru
 
 
 @st.composite
-def feature_spec(draw, max_blocks=4, max_len=10, strand=None, start_min=0, start_max=8, with_ids=True, qualifiers=True, adjacent_blocks=False):
+def feature_spec(draw, max_blocks=4, max_len=10, strand=None, start_min=0, start_max=8, with_ids=True, qualifiers=True, adjacent_blocks=False, unstranded_prob=0):
     blocks = draw(layout(max_k=max_blocks, allow_empty=False, allow_adjacent=adjacent_blocks, allow_overlap=False, max_len=max_len, max_gap=6, max_start=start_max))
     if start_min:
         blocks = [[s + start_min, e + start_min] for s, e in blocks]
     sp = {"blocks": blocks, "strand": strand or draw(st.sampled_from(["+", "-"]))}
+    if unstranded_prob and strand is None and draw(st.integers(0, unstranded_prob - 1)) == 0:
+        sp["strand"] = "."   # a feature without direction (binding site, repeat ...): valid wherever no direction is needed
     if with_ids:
         sp["feature_name"] = draw(st.one_of(st.none(), IDENT))
         sp["feature_id"] = draw(st.one_of(st.none(), IDENT))
@@ -308,14 +313,17 @@ def feature_spec(draw, max_blocks=4, max_len=10, strand=None, start_min=0, start
 
 
 @st.composite
-def gene_spec(draw, max_tx=3, same_strand=True, region=None, coding=None, **txkw):
+def gene_spec(draw, max_tx=3, same_strand=True, region=None, coding=None, unstranded_gene_prob=0, **txkw):
     """1..max_tx transcripts sharing a locus (region = [lo, hi] start window for the exons)"""
     n = draw(st.integers(1, max_tx))
     strand = draw(st.sampled_from(["+", "-"]))
+    if unstranded_gene_prob and coding is not True and draw(st.integers(0, unstranded_gene_prob - 1)) == 0:
+        # a gene model without direction: every transcript non-coding and unstranded
+        strand, coding = ".", False
     lo = region[0] if region else 0
     txs = []
     for i in range(n):
-        s = strand if same_strand or draw(st.integers(0, 2)) else draw(st.sampled_from(["+", "-"]))
+        s = strand if same_strand or strand == "." or draw(st.integers(0, 2)) else draw(st.sampled_from(["+", "-"]))
         txs.append(draw(transcript_spec(strand=s, start_min=lo, coding=coding, **txkw)))
     # a gene must not hold two identical transcripts nor more than one primary flag (documented preconditions)
     seen_primary = False
@@ -385,7 +393,7 @@ def variant_specs(draw, lo, hi, max_n=3, kinds=("snv", "ins", "del", "del_unpadd
 
 
 @st.composite
-def collection_spec(draw, max_genes=2, max_fcs=2, max_vcs=1, with_variants=True, tx_kw=None, region_step=40):
+def collection_spec(draw, max_genes=2, max_fcs=2, max_vcs=1, with_variants=True, tx_kw=None, region_step=40, feat_kw=None):
     """annotation collection: genes, feature collections, optional variant collection placed after all other members"""
     tx_kw = tx_kw or {}
     ng = draw(st.integers(0, max_genes))
@@ -394,7 +402,7 @@ def collection_spec(draw, max_genes=2, max_fcs=2, max_vcs=1, with_variants=True,
     for i in range(ng):
         genes.append(draw(gene_spec(max_tx=2, max_exons=3, max_len=7, region=[draw(st.integers(0, 3)) + i * draw(st.sampled_from([0, 5, region_step])), 0], **tx_kw)))
     for i in range(nf):
-        fcs.append(draw(feature_collection_spec(max_feat=2, max_blocks=2, max_len=7, region=[draw(st.integers(0, 60)), 0])))
+        fcs.append(draw(feature_collection_spec(max_feat=2, max_blocks=2, max_len=7, region=[draw(st.integers(0, 60)), 0], **(feat_kw or {}))))
     his = [t["exons"][-1][1] for g_ in genes for t in g_["transcripts"]] + [f["blocks"][-1][1] for c in fcs for f in c["features"]]
     hi = max(his)
     vcs = []
